@@ -72,7 +72,12 @@ func libConnEarly(role Role, p wire.Params, threshold int, lib2peer, peer2lib xp
 		defer cancel()
 		c, err = attach.Client(ctx, libEnd, attach.ClientOpts{Params: p, Threshold: threshold})
 	} else {
-		c, _, err = attach.Server(libEnd, attach.ServerOpts{Params: p, Threshold: threshold, Prefill: len(early) > 0})
+		var rec *attach.Recorder
+		c, rec, err = attach.Server(libEnd, attach.ServerOpts{Params: p, Threshold: threshold, Prefill: len(early) > 0})
+		if err == nil && rec != nil {
+			// what the server announced is what a real client goes by when it decodes the server's messages
+			peerEnd.Note = attach.ParseExt(rec.Header().Get("Sec-WebSocket-Extensions"))
+		}
 	}
 	if err != nil {
 		return nil, nil, nil, fmt.Errorf("attach %s %v: %w", role, p, err)
@@ -115,7 +120,17 @@ type RawPeer struct {
 func newRawPeer(end *xport.End, libRole Role, p wire.Params, seed uint64) *RawPeer {
 	rp := &RawPeer{End: end, IsClient: libRole == RoleServer, P: p, rng: fw.NewRand(seed ^ 0xabcdef), done: make(chan struct{})}
 	rp.cond = sync.NewCond(&rp.mu)
-	rp.Conf = &wire.Conform{FromClient: libRole == RoleClient, P: p}
+	confP := p
+	if end == nil {
+		rp.Conf = &wire.Conform{FromClient: libRole == RoleClient, P: p}
+		return rp
+	}
+	if ann, ok := end.Note.(wire.Params); ok && libRole == RoleServer && ann.Deflate && p.Deflate && ann.ServerNoCtx {
+		// the server announced server_no_context_takeover (it may, even unasked: RFC 7692 7.1.1.1): its messages are
+		// decoded without history, as its announcement promises
+		confP.ServerNoCtx = true
+	}
+	rp.Conf = &wire.Conform{FromClient: libRole == RoleClient, P: confP}
 	return rp
 }
 
